@@ -267,22 +267,49 @@ def f_run(arg):
     for k, v in render(F_SOCKS).items():
         w.set_file("/proc/net/" + k, v)
     pa.fds = {fd: FD(t, "sock" if t.startswith("socket") else "reg") for fd, t in F_FDS.items()}
+    if any(d == "die" for _, d in plan):
+        pb.fds = {fd + 10: FD(t, "sock") for fd, t in F_FDS.items() if t.startswith("socket")}     # (a pre-fork sibling)
     closed = []
 
+    died = []
+
     def apply(world, dev, kind, subj, pid):
+        if dev == "die":
+            # the process itself exits and is reaped at this point of the scan (its sockets may live on in a sibling: pb holds
+            # the same inodes, so the system tables still list them)
+            if pa.pid in world.procs:
+                world.vanish(pa.pid)
+                died.append(True)
+            return
         fd = int(dev.split(":")[1])
         if fd in pa.fds:
             del pa.fds[fd]
             closed.append(fd)
     hook = PlanHook(plan, apply)
+    obj = psutil.Process(pa.pid) if mode != "system" else None
     w.hook = hook
     w.logging = False
     if mode == "system":
         out = outcome(psutil.net_connections, "all")
     else:
-        out = outcome(psutil.Process(pa.pid).net_connections, "all")
+        out = outcome(obj.net_connections, "all")
     w.hook = None
     bad = []
+    if died:
+        # the complete listing it had, or NoSuchProcess -- never a part of it
+        if out[0] == "exc" and out[1] == "NoSuchProcess":
+            pass
+        elif out[0] != "ok":
+            bad.append(("raised-when-the-process-exits:%s:%s" % (mode, out[1]), "%r (plan %r)" % (out, plan)))
+        else:
+            rows = [norm_row(r, False) for r in out[1]]
+            have = {r[0] for r in rows}
+            want = {f for f, t in F_FDS.items() if t.startswith("socket")}
+            if have != want:
+                bad.append(("part-of-the-sockets-of-a-process-that-exited-during-the-scan",
+                            "process exited during the scan (plan %r): rows for fds %r, it held %r -- neither its listing nor NoSuchProcess"
+                            % (plan, sorted(have), sorted(want))))
+        return {"accesses": hook.accesses, "bad": bad}
     if out[0] != "ok":
         bad.append(("raised-when-fd-closes:%s:%s" % (mode, out[1]), "%r with fds %r closing (plan %r)" % (out, closed, plan)))
         return {"accesses": hook.accesses, "bad": bad}
@@ -306,6 +333,10 @@ def f_part(ctx):
                 continue
             for fd in F_FDS:
                 plans.append((ctx.seed, ((i, "close:%d" % fd),), mode))
+        if mode == "process":
+            r0 = f_run((ctx.seed, ((10 ** 6, "die"),), mode))       # (same world as the die plans: the sibling holds the sockets too)
+            for i, (kind, subj, pid) in enumerate(r0["accesses"]):
+                plans.append((ctx.seed, ((i, "die"),), mode))
     res = ctx.pmap(f_run, plans)
     viols = []
     for pl, r in zip(plans, res):
@@ -355,6 +386,13 @@ def build_cases(thorough):
         for h1, h2 in seqs:
             cases.append({"socks": [base], "hold": {ino: h1}, "kinds": ["all"],
                           "then": {"socks": [base], "hold": {ino: h2}, "kinds": ["all", "unix" if proto == "unix" else "tcp4"]}})
+    # (4c) ownerless sockets: the kernel prints inode 0 for every TIME_WAIT / SYN_RECV / orphaned socket -- several rows of one
+    #      table carry the same (zero) inode and are different sockets all the same
+    tw = [{"proto": "tcp", "l": ["10.1.2.3", 22], "r": ["10.1.2.3", 40000 + i], "st": "06", "inode": 0} for i in range(3)]
+    tw6 = [{"proto": "tcp6", "l": ["::1", 22], "r": ["::1", 50000 + i], "st": ["06", "03"][i], "inode": 0} for i in range(2)]
+    held = {"proto": "tcp", "l": ["10.1.2.3", 22], "r": ["0.0.0.0", 0], "st": "0A", "inode": ino + 50}
+    cases.append({"socks": tw + tw6 + [held], "hold": {0: [], ino + 50: [["a", 3]]}, "kinds": ["all", "tcp", "tcp4", "tcp6", "inet"]})
+    cases.append({"socks": tw[:2], "hold": {0: []}, "kinds": ["all", "tcp4"]})
     # (5) mixed tables: all multisets of n sockets from a menu, all kinds + bad kinds
     menu = [
         {"proto": "tcp", "l": ["10.1.2.3", 22], "r": ["10.1.2.3", 1], "st": "01"},
